@@ -24,6 +24,19 @@ def adversarial():
     return out
 
 
+def adversarial_bus():
+    """On a (fake) bus: a connection that owns well-known names goes away like any other (the tasks that watch the names must
+    not keep it alive)."""
+    out = []
+    for flags in (0, 1, 3, 5):   # bit 0 = AllowReplacement (a task then watches NameLost / NameAcquired), 1 = ReplaceExisting, 2 = DoNotQueue
+        out.append([["reqname", flags], ["quiesce"], ["dropconn"], ["quiesce"]])
+    out.append([["reqname", 1], ["quiesce"], ["shutdown"], ["quiesce"]])
+    out.append([["reqname", 1], ["quiesce"], ["cloneconn", 1], ["sub", 1, "A", 2], ["quiesce"], ["dropconn"], ["quiesce"], ["dropstream", 1], ["quiesce"],
+                ["dropclone", 1], ["quiesce"]])
+    out.append([["reqname", 5], ["quiesce"], ["cloneconn", 1], ["shutdown"], ["quiesce"], ["shutdownclone", 1], ["quiesce"]])
+    return out
+
+
 def random_steps(rnd):
     steps = []
     if rnd.random() < 0.5:
@@ -86,6 +99,7 @@ def run(pid, tier, replay):
             raise core.ToolError("MC_Lifecycle: action never taken: %s" % r.coverage)
         chk.add_tlc(r)
         scen = [{"kind": "life", "steps": s, "origin": "adversarial"} for s in adversarial()]
+        scen += [{"kind": "life", "bus": True, "steps": s, "origin": "adversarial"} for s in adversarial_bus()]
         rnd = random.Random(chk.seed * 15485863 + 39)
         for _ in range(200 if chk.quick else 10000):
             scen.append({"kind": "life", "steps": random_steps(rnd), "origin": "random"})
